@@ -242,6 +242,11 @@ pub fn run(tier: Tier) -> i32 {
         .par_iter()
         .fold(Census::new, |mut cen, d| {
             if let Ok(Ok(c)) = guard(|| prepare(d, KeyForm::Compressed)) {
+                if c.keys.len() > 6 {
+                    // wide multisigs: the all-witness search does not scale; they are covered by C01 / C09 / C13 / C17
+                    bump(&mut cen, "wide_descriptors_skipped");
+                    return cen;
+                }
                 bump(&mut cen, "descriptors");
                 check_desc(&rep, &c, thorough, &mut cen);
             }
